@@ -13,6 +13,7 @@ import (
 	"hash/fnv"
 	"os"
 	"runtime"
+	"runtime/debug"
 	"sort"
 	"strconv"
 	"strings"
@@ -47,26 +48,27 @@ type Sched struct {
 
 	Tape *Tape
 
-	Steps      int
-	MaxSteps   int
-	MaxIdle    time.Duration // simulated time with no runnable task before a deadlock is declared
-	Deadlock   bool
-	StepLimit  bool
-	Aborted    bool
-	Contended  int
-	ilHash     uint64 // hash over decisions at contention points
-	evHash     uint64 // hash over every event
-	Trace      []string
-	KeepTrace  bool
-	Start      time.Time
-	lastTask   string
-	Policy     int
-	slowTask   string
-	DeadReport string
+	Steps       int
+	MaxSteps    int
+	MaxIdle     time.Duration // simulated time with no runnable task before a deadlock is declared
+	TaskPanic   string        // first panic raised in a spawned task
+	Deadlock    bool
+	StepLimit   bool
+	Aborted     bool
+	Contended   int
+	ilHash      uint64 // hash over decisions at contention points
+	evHash      uint64 // hash over every event
+	Trace       []string
+	KeepTrace   bool
+	Start       time.Time
+	lastTask    string
+	Policy      int
+	slowTask    string
+	DeadReport  string
 	scrubs      [][2]string
 	rootDone    bool
 	LeakedTasks int
-	OnStep     func() // invariant hook, runs on the scheduler goroutine between two steps
+	OnStep      func() // invariant hook, runs on the scheduler goroutine between two steps
 }
 
 var cur atomic.Pointer[Sched]
@@ -271,6 +273,16 @@ func (s *Sched) runTask(id string, f func()) {
 		s.live--
 		s.mu.Unlock()
 		s.signal()
+	}()
+	defer func() {
+		// a panic in a task of the code under test ends that task, not the worker process; the run reports it
+		if r := recover(); r != nil {
+			s.mu.Lock()
+			if s.TaskPanic == "" {
+				s.TaskPanic = fmt.Sprint(r) + "\n" + string(debug.Stack())
+			}
+			s.mu.Unlock()
+		}
 	}()
 	Yield("start")
 	f()
